@@ -6,8 +6,9 @@ export RUSTUP_TOOLCHAIN=stable-x86_64-unknown-linux-gnu CARGO_NET_OFFLINE=true C
 cd $wt || exit 2
 git apply --check -R deliver/patch.diff 2>/dev/null || { git checkout -- src Cargo.toml 2>/dev/null; git apply deliver/patch.diff || { echo "PATCH DOES NOT APPLY"; exit 2; }; }
 run_demo() {
-  if [[ "$demo" == *.sh ]]; then bash "$demo" >/tmp/demo.$$.log 2>&1; else cargo test --offline --test "$demo" >/tmp/demo.$$.log 2>&1; fi
-  echo $?
+  # stdout must be a pipe, not a file: some demonstrations run children under `ulimit -f 0`
+  if [[ "$demo" == *.sh ]]; then bash "$demo" 2>&1 | cat >/tmp/demo.$$.log; rc=${PIPESTATUS[0]}; else cargo test --offline --test "$demo" 2>&1 | cat >/tmp/demo.$$.log; rc=${PIPESTATUS[0]}; fi
+  echo $rc
 }
 echo "== demo with change: exit $(run_demo)  (expected non-zero)"; tail -3 /tmp/demo.$$.log
 mkdir -p /tmp/demo-hold.$$; [ -d tests ] && mv tests /tmp/demo-hold.$$/
